@@ -26,8 +26,12 @@ def check(case):
     text = case['text']
     res = Result(key=text)
     try:
-        stmts = sqlparse.parse(text)
         lex = refscan.scan(text)
+    except ValueError as e:
+        res.fail('zero-width-rule', '', str(e))
+        return res
+    try:
+        stmts = sqlparse.parse(text)
     except Exception as e:
         res.failures.append(exc_failure('raises', e))
         return res
@@ -81,6 +85,16 @@ def check(case):
                 if ti != i:
                     res.fail('token_index', '', 'token_index(child %d)=%r' % (i, ti))
                     break
+                # the optional start argument (an index or a token at or before the child) must not change the answer
+                for start in {0, i, i // 2}:
+                    for st_arg in (start, toks[start]):
+                        try:
+                            tj = g.token_index(c, st_arg)
+                        except Exception as e:
+                            res.failures.append(exc_failure('token_index-raises', e))
+                            tj = i
+                        if tj != i:
+                            res.fail('token_index', 'start', 'token_index(child %d, start=%r)=%r' % (i, start, tj))
                 for sw in (True, False):
                     for sc in (True, False):
                         def skip(t):
